@@ -365,6 +365,23 @@ func (env *specEnv) selector(t *ast.SelectorExpr) SVal {
 				return SVal{V: v, T: st.Field(i).Type()}
 			}
 		}
+		// promoted field of an embedded struct, through the pointer (one level)
+		for i := 0; i < st.NumFields(); i++ {
+			if !st.Field(i).Embedded() {
+				continue
+			}
+			if est, ok := st.Field(i).Type().Underlying().(*types.Struct); ok {
+				for j := 0; j < est.NumFields(); j++ {
+					if est.Field(j).Name() == t.Sel.Name {
+						off := structOffsets(st)[i] + structOffsets(est)[j]
+						v := c.Load(env.heap, toPtr(base.V), off, est.Field(j).Type())
+						c.wfAssume(v, &env.e.pendingWF)
+						env.e.pendingVals = append(env.e.pendingVals, pendingVal{v, est.Field(j).Type()})
+						return SVal{V: v, T: est.Field(j).Type()}
+					}
+				}
+			}
+		}
 		specErr("no field %s in %s", t.Sel.Name, bt)
 	}
 	if st, ok := bt.Underlying().(*types.Struct); ok {
